@@ -105,9 +105,12 @@ def config(rng, i, tier):
             edges.append(extra)
         covered = len({n for e in edges for n in e})
     weights = [rng.randint(1, 3) for _ in edges] if rng.random() < 0.5 else None
+    normalize = i % 3 == 2
+    # normalised memberships are judged on what fit returns: short runs return the early iterates too
+    iters = rng.choice([1, 1, 2, 2, 6, 25]) if normalize else rng.choice([1, 2, 6, 25, 60])
     return {"N": N + n_iso, "K": K, "edges": edges, "weights": weights, "family": FAMS[i % 4], "seed": rng.randrange(1, 10 ** 6),
-            "n_realizations": rng.choice([1, 2, 3]), "max_iter": rng.choice([1, 2, 6, 25, 60]),
-            "every": rng.choice([1, 1, 1, 2, 3]), "normalizeU": i % 3 == 2, "baseline_r0": rng.random() < 0.5,
+            "n_realizations": rng.choice([1, 2, 3]), "max_iter": iters,
+            "every": rng.choice([1, 1, 1, 2, 3]), "normalizeU": normalize, "baseline_r0": rng.random() < 0.5,
             "min_value_par": 0.0 if i % 2 == 0 else 1e-5, "weighted_L": rng.random() < 0.3}
 
 
